@@ -1,8 +1,32 @@
-"""Scenario generator for the loop harness (harness/loop_h.c). Every choice derives from one PRNG."""
+"""Scenario generator for the loop harness (harness/loop_h.c). Every choice derives from one PRNG.
+
+Families bias the shapes each property is about:
+  mix       everything, mostly-valid, all configurations and faults
+  storm     (C01) many objects due in the same iteration; handlers unregister + free self/others, re-register recycled structs
+  churn     (C02/C03) handlers set/cleared/re-set in and between iterations; readiness arising and vanishing; HUP/ERR
+  deadline  (C04) past/zero/equal/far expiries, re-arming from handlers, descriptor wake-ups while a deadline is pending
+            (>= 6 iterations so the kernel-timer path engages and disengages), EINTR
+  tasks     (C06) self/mutual re-registration chains, stale/fresh epochs, registration from other handlers
+  lifecycle (C07) register/unregister of every kind, iv_quit anywhere, failing registrations, repeated iv_main
+"""
 import random
 
 METHODS = [None, "epoll-timerfd", "epoll-timerfd epoll", "epoll-timerfd epoll ppoll"]
 METHOD_NAME = {None: "epoll-timerfd", "epoll-timerfd": "epoll", "epoll-timerfd epoll": "ppoll", "epoll-timerfd epoll ppoll": "poll"}
+
+W_MIX = dict(reg=2, unreg=2, try_=1, set=3, fdio=2, trel=2, treg0=1, tunreg=1, kreg=2, kunreg=1, evreg=1, evunreg=1, evpost=2,
+             rawreg=1, rawunreg=1, rawpost=2, clk=1, inval=1, valid=1, free=1, quit=0.15, nop=0.5)
+W_STORM = dict(reg=2, unreg=5, try_=0.5, set=1, fdio=1, trel=2, treg0=0.5, tunreg=3, kreg=2, kunreg=3, evreg=1.5, evunreg=3, evpost=2,
+               rawreg=1, rawunreg=2, rawpost=1, clk=0.3, inval=0.2, valid=0.2, free=5, quit=0.05, nop=0.2)
+W_CHURN = dict(reg=2, unreg=1.5, try_=1.5, set=8, fdio=5, trel=0.5, treg0=0.1, tunreg=0.2, kreg=0.5, kunreg=0.2, evreg=0, evunreg=0, evpost=0,
+               rawreg=0, rawunreg=0, rawpost=0, clk=0.3, inval=0.2, valid=0.2, free=0.5, quit=0.05, nop=0.3)
+W_DEADLINE = dict(reg=0.5, unreg=0.3, try_=0.1, set=0.5, fdio=1.5, trel=6, treg0=1, tunreg=2, kreg=0.7, kunreg=0.2, evreg=0, evunreg=0, evpost=0,
+                  rawreg=0, rawunreg=0, rawpost=0, clk=2, inval=1.5, valid=1.5, free=0.3, quit=0.03, nop=0.3)
+W_TASKS = dict(reg=0.3, unreg=0.2, try_=0, set=0.3, fdio=0.5, trel=1, treg0=0.3, tunreg=0.3, kreg=8, kunreg=3, evreg=0.3, evunreg=0.2, evpost=1,
+               rawreg=0, rawunreg=0, rawpost=0, clk=0.3, inval=0.2, valid=0.2, free=1.5, quit=0.05, nop=0.3)
+W_LIFE = dict(reg=2, unreg=3, try_=3, set=1, fdio=1, trel=2, treg0=0.5, tunreg=3, kreg=2, kunreg=2, evreg=3, evunreg=3, evpost=1,
+              rawreg=2, rawunreg=2, rawpost=1, clk=0.3, inval=0.2, valid=0.2, free=1, quit=1.0, nop=0.2)
+WEIGHTS = dict(mix=W_MIX, storm=W_STORM, churn=W_CHURN, deadline=W_DEADLINE, tasks=W_TASKS, lifecycle=W_LIFE)
 
 
 class Gen:
@@ -16,6 +40,7 @@ class Gen:
         self.raws = raws
         self.faults = faults
         self.bad = set()
+        self.w = WEIGHTS[family]
 
     def pick(self, kind):
         r = self.r
@@ -28,54 +53,87 @@ class Gen:
 
     def flags(self):
         r = self.r
+        if self.family in ("storm", "churn") and r.random() < 0.6:
+            return r.choice(["110", "111", "111", "101", "011"])
         return "".join(r.choice("01") for _ in range(3))
 
     def delta(self):
         r = self.r
+        if self.family == "storm":
+            return r.choice([0, 0, 1000000, 1000000, 1000000, -5, 2000000])
         return r.choice([0, 0, 1, 999999, 1000000, 1000001, 5000000, 5000000, 5000000, 70000000, 3000000000, -5, -2000000000,
                          r.randrange(0, 20000000)])
 
-    def action(self, in_handler=True, unguarded=0.03):
+    def action(self, me=None, unguarded=0.03):
+        """one action; `me` = the object whose handler this is (biases towards self)"""
         r = self.r
         g = "" if r.random() < unguarded else "?"
-        choices = []
-        if self.nf:
-            choices += ["reg", "unreg", "setin", "setout", "seterr", "unreg", "try", "fdio", "fdio"]
-        if self.nt:
-            choices += ["trel", "trel", "tunreg", "treg0"]
-        if self.nk:
-            choices += ["kreg", "kreg", "kunreg"]
-        if self.ne:
-            choices += ["evreg", "evunreg", "evpost", "evpost"]
-        if self.nr:
-            choices += ["rawreg", "rawunreg", "rawpost", "rawpost"]
-        choices += ["clk", "inval", "valid", "free", "quit" if r.random() < 0.15 else "nop"]
-        c = r.choice(choices)
-        f, t, k, e, rw = self.pick("f"), self.pick("t"), self.pick("k"), self.pick("e"), self.pick("r")
-        if c == "reg": return f"{g}{'try' if f in self.bad else 'reg'} {f} {self.flags()}"
-        if c == "try": return f"{g}try {f} {self.flags()}"
-        if c == "unreg": return f"{g}unreg {f}"
-        if c in ("setin", "setout", "seterr"): return f"{g}{c} {f} {r.choice('01')}"
-        if c == "fdio": return r.choice([f"wr {f} 3", f"rd {f}", f"fill {f}", f"unfill {f}", f"closepeer {f}", f"shutpeer {f}", f"rd {f}"])
+        w = dict(self.w)
+        if not self.nf:
+            for k in ("reg", "unreg", "try_", "set", "fdio"): w[k] = 0
+        if not self.nt:
+            for k in ("trel", "treg0", "tunreg"): w[k] = 0
+        if not self.nk:
+            for k in ("kreg", "kunreg"): w[k] = 0
+        if not self.ne:
+            for k in ("evreg", "evunreg", "evpost"): w[k] = 0
+        if not self.nr:
+            for k in ("rawreg", "rawunreg", "rawpost"): w[k] = 0
+        keys = list(w)
+        c = r.choices(keys, [w[k] for k in keys])[0]
+
+        def obj(kind):
+            if me and me[0] == kind and r.random() < 0.5:
+                return me
+            return self.pick(kind)
+        f, t, k, e, rw = obj("f"), obj("t"), obj("k"), obj("e"), obj("r")
+        if c == "reg":
+            a = f"{g}{'try' if f in self.bad else 'reg'} {f} {self.flags()}"
+            return a
+        if c == "try_": return f"{g}try {f} {self.flags()}"
+        if c == "unreg":
+            a = f"{g}unreg {f}"
+            if self.family == "storm" and r.random() < 0.7:
+                a += f" ; free {f}" + (f" ; init {f} ; ?reg {f} {self.flags()}" if r.random() < 0.4 else "")
+            return a
+        if c == "set": return f"{g}{r.choice(['setin', 'setout', 'seterr'])} {f} {r.choice('01')}"
+        if c == "fdio": return r.choice([f"wr {f} 3", f"rd {f}", f"fill {f}", f"unfill {f}", f"closepeer {f}", f"shutpeer {f}", f"rd {f}", f"wr {f} 1"])
         if c == "trel": return f"{g}trel {t} {self.delta()}"
         if c == "treg0": return f"{g}treg {t} 0"
-        if c == "tunreg": return f"{g}tunreg {t}"
+        if c == "tunreg":
+            a = f"{g}tunreg {t}"
+            if self.family == "storm" and r.random() < 0.7:
+                a += f" ; free {t}" + (f" ; init {t} ; ?trel {t} {self.delta()}" if r.random() < 0.4 else "")
+            return a
         if c == "kreg": return f"{g}kreg {k}"
-        if c == "kunreg": return f"{g}kunreg {k}"
+        if c == "kunreg":
+            a = f"{g}kunreg {k}"
+            if self.family in ("storm", "tasks") and r.random() < 0.6:
+                a += f" ; free {k}" + (f" ; init {k} ; ?kreg {k}" if r.random() < 0.5 else "")
+            return a
         if c == "evreg": return f"?evreg {e}"
-        if c == "evunreg": return f"?evunreg {e}"
+        if c == "evunreg":
+            a = f"?evunreg {e}"
+            if self.family == "storm" and r.random() < 0.7:
+                a += f" ; free {e}" + (f" ; init {e} ; ?evreg {e}" if r.random() < 0.4 else "")
+            return a
         if c == "evpost": return f"evpost {e}"
         if c == "rawreg": return f"?rawreg {rw}"
-        if c == "rawunreg": return f"?rawunreg {rw}"
+        if c == "rawunreg":
+            a = f"?rawunreg {rw}"
+            if self.family == "storm" and r.random() < 0.7:
+                a += f" ; free {rw}" + (f" ; init {rw} ; ?rawreg {rw}" if r.random() < 0.4 else "")
+            return a
         if c == "rawpost": return f"rawpost {rw}"
         if c == "clk": return f"clk {r.choice([1, 1000, 1000000, 6000000, 2000000000])}"
         if c == "inval": return "inval"
         if c == "valid": return "valid"
         if c == "free":
-            cand = [x for x in (f, t, k, e, rw) if x]
+            cand = [x for x in (f, t, k, e, rw, me) if x]
             if not cand: return "nop"
             o = r.choice(cand)
-            return f"free {o} ; init {o}" if r.random() < 0.7 else f"free {o}"
+            # one-shot objects may be freed (and recycled) from inside their own handler
+            return f"free {o} ; init {o}" if r.random() < 0.6 else f"free {o}"
         if c == "quit": return "quit"
         return "nop"
 
@@ -93,15 +151,28 @@ class Gen:
             if r.random() < 0.15: cfg.append("noepollcreate1")
             for _ in range(r.choice([0, 0, 1, 2, 3])):
                 cfg.append(f"eintr={r.randrange(1, 20)}")
-            if r.random() < 0.15: cfg.append(r.choice(["noeventfd2", "noeventfd2"]))
+            if r.random() < 0.15: cfg.append("noeventfd2")
         L.append("cfg " + " ".join(cfg))
-        self.nf = r.choice([0, 1, 2, 3, 5]) if fam != "timers" else r.choice([0, 1])
-        self.nt = r.choice([0, 1, 2, 4, 6]) if fam != "fds" else r.choice([0, 1])
-        self.nk = r.choice([0, 1, 2, 3])
-        self.ne = r.choice([0, 0, 1, 2, 3]) if self.events else 0
-        self.nr = r.choice([0, 0, 1, 2]) if self.raws else 0
+        if fam == "storm":
+            self.nf, self.nt, self.nk = r.choice([2, 3, 4, 6]), r.choice([1, 2, 4]), r.choice([1, 2, 3])
+            self.ne = r.choice([0, 1, 2]) if self.events else 0
+            self.nr = r.choice([0, 1]) if self.raws else 0
+        elif fam == "churn":
+            self.nf, self.nt, self.nk, self.ne, self.nr = r.choice([1, 2, 3, 5]), r.choice([0, 1]), r.choice([0, 1]), 0, 0
+        elif fam == "deadline":
+            self.nf, self.nt, self.nk, self.ne, self.nr = r.choice([0, 1, 2]), r.choice([1, 2, 4, 6]), r.choice([0, 1]), 0, 0
+        elif fam == "tasks":
+            self.nf, self.nt, self.nk = r.choice([0, 1]), r.choice([0, 1, 2]), r.choice([1, 2, 3, 4])
+            self.ne, self.nr = (r.choice([0, 1]) if self.events else 0), 0
+        else:
+            self.nf = r.choice([0, 1, 2, 3, 5])
+            self.nt = r.choice([0, 1, 2, 4, 6])
+            self.nk = r.choice([0, 1, 2, 3])
+            self.ne = r.choice([0, 0, 1, 2, 3]) if self.events else 0
+            self.nr = r.choice([0, 0, 1, 2]) if self.raws else 0
         for i in range(self.nf):
-            kind = r.choice(['sock', 'sock', 'sock', 'pipe-r', 'pipe-w', 'bad' if r.random() < 0.3 else 'sock'])
+            kind = r.choice(['sock', 'sock', 'sock', 'pipe-r', 'pipe-w', 'bad' if (r.random() < 0.3 and fam in ("mix", "lifecycle")) else 'sock'])
+            if fam == "storm": kind = "sock"
             if kind == 'bad': self.bad.add(f"f{i}")
             L.append(f"obj fd f{i} {kind}")
         for i in range(self.nt): L.append(f"obj timer t{i}")
@@ -113,18 +184,21 @@ class Gen:
                                ("e", self.ne, [None]), ("r", self.nr, [None])):
             for i in range(n):
                 oid = i + 1 if kind in "kr" else i
+                me = f"{kind}{oid}"
                 for b in bands:
-                    who = f"{kind}{oid}" + (f".{b}" if b else "")
-                    for nth in r.sample([1, 2, 3, 4, "*"], r.choice([0, 1, 2, 3])):
-                        acts = [self.action() for _ in range(r.choice([1, 1, 2, 3, 4]))]
+                    who = me + (f".{b}" if b else "")
+                    nths = r.sample([1, 2, 3, 4, "*"], r.choice([0, 1, 2, 3] if fam != "storm" else [1, 2, 3]))
+                    for nth in nths:
+                        acts = [self.action(me=me) for _ in range(r.choice([1, 1, 2, 3, 4]))]
                         if b == "out" and nth == "*" and r.random() < 0.8:
-                            acts.append(f"?setout {kind}{oid} 0")
+                            acts.append(f"?setout {me} 0")
                         if b == "in" and r.random() < 0.6:
-                            acts.insert(0, f"rd {kind}{oid}")
+                            acts.insert(0, f"rd {me}")
                         L.append(f"on {who} {nth} : " + " ; ".join(acts))
         # stimuli
+        dense = fam in ("deadline", "churn")
         for w in range(0, 30):
-            if r.random() < 0.45:
+            if r.random() < (0.8 if dense else 0.45):
                 acts = []
                 for _ in range(r.choice([1, 1, 2, 3])):
                     k = r.random()
@@ -135,18 +209,35 @@ class Gen:
                     else: acts.append(f"clk {r.choice([1, 500000, 5000000, 100000000])}")
                 L.append(f"at {w} : " + " ; ".join(acts))
         # setup
-        acts = [self.action(in_handler=False, unguarded=0.05) for _ in range(r.choice([2, 4, 8, 12]))]
-        acts = [a for a in acts if not a.startswith(("quit",))]
+        acts = []
+        if fam == "storm":
+            for i in range(self.nf): acts += [f"reg f{i} {self.flags()}", f"wr f{i} 2"]
+            for i in range(self.nt): acts.append(f"trel t{i} {r.choice([0, 1000000, 1000000])}")
+            for i in range(1, self.nk + 1): acts.append(f"kreg k{i}")
+            for i in range(self.ne): acts += [f"evreg e{i}", f"evpost e{i}"]
+            for i in range(1, self.nr + 1): acts += [f"rawreg r{i}", f"rawpost r{i}"]
+        if fam == "deadline":
+            far = r.choice([50000000, 200000000, 1000000000])
+            for i in range(self.nt): acts.append(f"trel t{i} {far if r.random() < 0.6 else self.delta()}")
+            for i in range(self.nf): acts.append(f"reg f{i} 100")
+            for i in range(self.nf):
+                L.append(f"on f{i}.in * : rd f{i}")
+        if fam == "churn":
+            for i in range(self.nf): acts.append(f"reg f{i} {self.flags()}")
+        if fam == "tasks":
+            for i in range(1, self.nk + 1): acts.append(f"kreg k{i}")
+        acts += [self.action(unguarded=0.02) for _ in range(r.choice([2, 4, 8, 12]))]
+        acts = [a for a in acts if "quit" not in a]
         L.append("do " + " ; ".join(acts))
         L.append("main")
-        if r.random() < 0.4:
-            acts = [self.action(in_handler=False, unguarded=0.0) for _ in range(r.choice([1, 3, 6]))]
-            L.append("do " + " ; ".join(a for a in acts if not a.startswith("quit")))
+        if r.random() < (0.7 if fam == "lifecycle" else 0.4):
+            acts = [self.action(unguarded=0.0) for _ in range(r.choice([1, 3, 6]))]
+            L.append("do " + " ; ".join(a for a in acts if "quit" not in a))
             L.append("main")
         return L
 
 
 def scenario(seed, family="mix", method="rotate", **kw):
-    rng = random.Random(seed)
+    rng = random.Random(seed * 1000003 + sorted(WEIGHTS).index(family))
     m = METHODS[seed % 4] if method == "rotate" else method
     return Gen(rng, family, m, **kw).build()
